@@ -2,6 +2,7 @@
 from __future__ import annotations
 
 import ast
+import re
 
 from ..loader import AnalysisError, dotted, norm, walk_no_defs
 from ..minieval import MiniEval, Obj, Unsupported
@@ -187,7 +188,7 @@ def r2_sentinels(a, tier):
     rep = RuleReport(
         'C08.R2',
         'the meta-expression scanners and their consumers in tatsu/input/cursor.py, interpreted for EVERY string over '
-        '{1, _, -, ., e, a} up to length 3 (thorough: 4, plus {+, E}) and the words true/True/false/False/t/x, at every position '
+        '{1, _, -, ., e, a, superscript-2} up to length 3 (thorough: 4, plus {+, E, Arabic-Indic 3}) and the words true/True/false/False/t/x, at every position '
         'from 0 to len(s): a scanner match_X(s, pos) raises nothing and returns -1 or an end offset with pos < end <= len(s); a '
         'consumer matchX(cursor) raises nothing (no ValueError from int()/float() of the matched text, no IndexError), returns '
         'None leaving the position unchanged, or the value of the matched text with the position moved to its end',
@@ -198,7 +199,8 @@ def r2_sentinels(a, tier):
     for need in {x for c, pr, _ in PAIRS for x in (c, pr)} | {'matchstr'}:
         if need not in fns:
             raise AnalysisError(f'anchor vanished: tatsu.input.cursor.{need}')
-    alpha = '1_-.ea' + ('+E' if tier == 'thorough' else '')
+    # '\u00b2' (superscript two) is a digit for str.isdigit() but not for int(); '\u0663' (Arabic-Indic three) is a decimal digit for both
+    alpha = '1_-.ea\u00b2' + ('+E\u0663' if tier == 'thorough' else '')
     nmax = 4 if tier == 'thorough' else 3
     numeric = list(_strings(alpha, nmax))
     words = [''.join(t) for k in (1, 2) for t in __import__('itertools').product(['true', 'True', 'false', 'False', 't', 'x', ' '], repeat=k)]
@@ -450,4 +452,260 @@ def r5_progress(a, tier):
     return rep
 
 
-RULES = [r1_one_factory, r2_sentinels, r3_cache_guards, r4_check_before_use, r5_progress, r6_scanner_bounds]
+RECURSIONS = ('missing_rules', '_used_rule_names')
+
+
+def r7_operand_coverage(a, tier):
+    from ..classes import dataclass_fields
+    rep = RuleReport(
+        'C08.R7',
+        'the reference checks see every operand: for every grammar-expression class, the implementation of missing_rules() and '
+        '_used_rule_names() that the class resolves to (through the MRO) reads every operand field of the class (fields typed Model, '
+        'list[Model] or Option lists; a field folded into `exp` by __post_init__ counts as read through exp). An operand declared '
+        'below the class that implements the check is invisible to it: an undefined rule used only there is not reported at compile '
+        'time and surfaces later as a foreign error or a silently failing element',
+        floor=40,
+    )
+    model = 'tatsu.peg.base.Model'
+    for c in sorted(set(a.ct.subclasses(model)) | {model}):
+        ci = a.p.classes.get(c)
+        if ci is None:
+            continue
+        operands = [f.name for f in dataclass_fields(a.ct, c) if not f.name.startswith('_') and f.annotation
+                    and any(t in f.annotation for t in ('Model', 'Option')) and 'ref' not in f.annotation]
+        if not operands:
+            continue
+        # operands folded into exp by __post_init__
+        folded = set()
+        for q in a.ct.mro(c):
+            k = a.p.classes.get(q)
+            pi = k.methods.get('__post_init__') if k else None
+            if pi is None:
+                continue
+            for n in walk_no_defs(pi.node):
+                if isinstance(n, ast.Assign) and any(norm(t) == 'self.exp' for t in n.targets):
+                    folded |= {x.attr for x in ast.walk(n.value) if isinstance(x, ast.Attribute) and norm(x.value) == 'self'}
+                # an operand that __post_init__ builds FROM exp (BasedRule.rhs = Sequence([base.exp, self.exp])) adds no reference
+                for t in (n.targets if isinstance(n, ast.Assign) else []):
+                    if isinstance(t, ast.Attribute) and norm(t.value) == 'self' and any(
+                            isinstance(x, ast.Attribute) and norm(x) == 'self.exp' for x in ast.walk(n.value)):
+                        folded.add(t.attr)
+        for mname in RECURSIONS:
+            impl = a.ct.lookup(c, mname)
+            if impl is None:
+                continue
+            reads = set()
+            seen = set()
+            cur = impl
+            while cur is not None and cur.qualname not in seen:
+                seen.add(cur.qualname)
+                reads |= {x.attr for x in walk_no_defs(cur.node) if isinstance(x, ast.Attribute) and norm(x.value) == 'self'}
+                nxt = None
+                if any(isinstance(x, ast.Call) and isinstance(x.func, ast.Attribute) and x.func.attr == mname and isinstance(x.func.value, ast.Call)
+                       and dotted(x.func.value.func) == 'super' for x in walk_no_defs(cur.node)) and cur.cls is not None:
+                    mro = a.ct.mro(c)
+                    if cur.cls.qualname in mro:
+                        for q in mro[mro.index(cur.cls.qualname) + 1:]:
+                            k = a.p.classes.get(q)
+                            if k and mname in k.methods:
+                                nxt = k.methods[mname]
+                                break
+                cur = nxt
+            missing = [f for f in operands if f not in reads and not (f in folded and 'exp' in reads)]
+            rep.add({'class': c.split('.')[-1], 'check': mname, 'implemented_in': impl.qualname.rsplit('.', 1)[0].split('.')[-1],
+                     'operands': operands, 'not_visited': missing})
+            for f in missing:
+                rep.fail(c, f'operand:{mname}:{f}', f'{c.split(".")[-1]}.{mname}() is {impl.qualname.rsplit(".", 2)[-2]}.{mname}, which never '
+                         f'looks at the operand `{f}`: a rule that is referenced only in the `{f}` of a {c.split(".")[-1]} is not reported as '
+                         f'missing when the grammar is compiled (and not counted as used)', ci.loc)
+    return rep
+
+
+def r8_eat_loops_terminate(a, tier):
+    from ..modelinterp import Hook, ModelInterp, Stub
+    rep = RuleReport(
+        'C08.R8',
+        'skipping loops terminate for every regex: _eat_regex of TextLinesCursor, BufferCursor and Buffer, interpreted on a stand-in '
+        'cursor whose scanner answers with scripted matches, stops when the regex matches the EMPTY string at the current position '
+        '(a whitespace or comment regex such as /\\s*/ matches empty everywhere): an empty match is no progress and must end the '
+        'loop, otherwise next_token() never returns',
+        floor=9,
+    )
+    impls = ['tatsu.input.textlines.TextLinesCursor', 'tatsu.input.buffer.BufferCursor', 'tatsu.input.buffer.Buffer']
+
+    class M:
+        def __init__(self, start, end):
+            self.s, self.e = start, end
+
+    class Diverges(Exception):
+        pass
+
+    scripts = [('an empty match every time', [0] * 1000), ('two characters, then empty matches', [2] + [0] * 1000), ('one character, then no match', [1, None])]
+    for c in impls:
+        fn = a.p.func(f'{c}._eat_regex')
+        for what, script in scripts:
+            calls = [0]
+            text = 'x' * 10
+
+            def make(c=c, script=script, calls=calls, text=text):
+                if c.endswith('.Buffer'):
+                    me = Stub(c, pos=0, text=text, len=len(text))
+                else:
+                    inp = Stub('tatsu.input.textlines.TextLines', textstr=text, len=len(text), _namechar_set=set()) if 'textlines' in c else \
+                        Stub('tatsu.input.buffer.Buffer', text=text, len=len(text), pos=0)
+                    me = Stub(c)
+                    it0 = ModelInterp(a)
+                    it0.apply(it0.get_attr(me, '__init__'), [inp, 0], {})
+
+                def scan(_pattern, me=me):
+                    i = calls[0]
+                    calls[0] += 1
+                    if calls[0] > 60:
+                        raise Diverges()
+                    k = script[i] if i < len(script) else None
+                    if k is None:
+                        return None
+                    p0 = me._attrs['pos']
+                    return M(p0, p0 + k)
+                me._attrs['_scanre'] = Hook(scan)
+                return me
+            me = make()
+            it = ModelInterp(a)
+
+            def methods(recv, name, args, kwargs):
+                if isinstance(recv, M):
+                    if name == 'end':
+                        return recv.e
+                    if name == 'start':
+                        return recv.s
+                    if name == 'group':
+                        return 'x' * (recv.e - recv.s)
+                    if name == 'span':
+                        return (recv.s, recv.e)
+                return NotImplemented
+            it.methods = methods
+
+            class _TruthyM(ModelInterp):
+                pass
+            try:
+                it.apply(it.get_attr(me, '_eat_regex'), ['RX'], {})
+                ended = True
+            except Diverges:
+                ended = False
+            except Unsupported as e:
+                raise AnalysisError(f'cannot interpret {fn.qualname}: {e}') from e
+            rep.add({'impl': c.split('.')[-1], 'scanner_answers': what, 'terminates': ended, 'scanner_calls': calls[0], 'position': me._attrs.get('pos')})
+            if not ended:
+                rep.fail(fn.qualname, f'eat-loop:{what}', f'{c.split(".")[-1]}._eat_regex keeps looping when the scanner answers with {what} '
+                         f'(more than 60 rounds at position {me._attrs.get("pos")}): with @@whitespace :: /\\s*/ or a comments regex that can '
+                         f'match the empty string, parsing any text hangs', fn.loc)
+    return rep
+
+
+# functions of the standard library (and their repo wrappers) that turn TEXT into a value, with the exceptions they raise on text
+# that is not in their language (trusted base: CPython 3.12 documentation and behaviour)
+CONVERTERS = {
+    're.compile': ('re.error', 'OverflowError'), 'cached_re_compile': ('re.error', 'OverflowError'),
+    'eval_escapes': ('UnicodeDecodeError',), 'codecs.decode': ('UnicodeDecodeError',),
+    'int': ('ValueError',), 'float': ('ValueError',), 'literal_eval': ('SyntaxError', 'ValueError'),
+}
+_BUILTIN_EXC_PARENTS = {'UnicodeDecodeError': ('UnicodeError', 'ValueError', 'Exception', 'BaseException'), 'ValueError': ('Exception', 'BaseException'),
+                        'OverflowError': ('ArithmeticError', 'Exception', 'BaseException'), 're.error': ('error', 'PatternError', 're.PatternError', 'Exception', 'BaseException'),
+                        'SyntaxError': ('Exception', 'BaseException')}
+
+
+def r9_converters_guarded(a, tier):
+    from ..minieval import Obj
+    from ..modelinterp import Hook, ModelInterp, Stub
+    rep = RuleReport(
+        'C08.R9',
+        'grammar text that is not in the language of a converter is a grammar error: inside the semantic actions of the grammar '
+        'parser (GrammarSemantics) every call that turns matched text into a value - re.compile / cached_re_compile (re.error, '
+        'OverflowError for a huge repetition count), eval_escapes (UnicodeDecodeError for \\xZZ or \\N{bogus}), int / float '
+        '(ValueError beyond the digit limit), literal_eval of matched text (SyntaxError, ValueError) - sits in a try whose handlers cover those classes and raise a TatSu exception; and '
+        'every @@directive whose setting is used as a regex (whitespace, comments, eol_comments) is validated as a pattern before '
+        'the grammar object is built, whatever syntactic form its value had',
+        floor=6,
+    )
+    gs = a.p.cls('tatsu.peg.semantics.GrammarSemantics')
+    ex = Executor(a.p, a.ct, a.resolver, Semantics())
+    for mname, m in gs.methods.items():
+        pm = a.resolver.parents(m)
+        for n in walk_no_defs(m.node):
+            if not isinstance(n, ast.Call):
+                continue
+            nm = dotted(n.func)
+            key = nm if nm in CONVERTERS else nm.split('.')[-1] if nm.split('.')[-1] in ('cached_re_compile', 'eval_escapes') else None
+            if key is None or not n.args:
+                continue
+            if all(isinstance(x, ast.Constant) for x in n.args):
+                continue
+            if key == 'literal_eval' and isinstance(n.args[0], ast.Call) and dotted(n.args[0].func) == 'repr':
+                continue  # literal_eval(repr(x)) of a str/number never fails
+            need = CONVERTERS[key]
+            covered: set[str] = set()
+            converts = True
+            cur: ast.AST = n
+            while id(cur) in pm:
+                par = pm[id(cur)]
+                if isinstance(par, ast.Try) and any(cur is s_ or any(x is cur for x in ast.walk(s_)) for s_ in par.body):
+                    for h in par.handlers:
+                        names = ['BaseException'] if h.type is None else [norm(t) for t in (h.type.elts if isinstance(h.type, ast.Tuple) else [h.type])]
+                        raises_tatsu = any(isinstance(x, ast.Raise) and x.exc is not None and
+                                           any('tatsu.exceptions' in c for c in [ex.raise_token(m, x.exc, None, {}).bound]) for x in ast.walk(h))
+                        for e_ in need:
+                            if e_ in names or e_.split('.')[-1] in names or any(p_ in names for p_ in _BUILTIN_EXC_PARENTS.get(e_, ())):
+                                if raises_tatsu:
+                                    covered.add(e_)
+                                else:
+                                    converts = False
+                cur = par
+            missing = [e_ for e_ in need if e_ not in covered]
+            rep.add({'action': m.qualname, 'converter': norm(n)[:60], 'raises_on_bad_text': list(need), 'converted_to_tatsu_error': not missing})
+            for e_ in missing:
+                rep.fail(m.qualname, f'unguarded:{key}:{e_}', f'`{norm(n)[:70]}` in the grammar action {mname}() can raise {e_} for text the '
+                         f'grammar language accepts at that place, and no enclosing handler turns it into a TatSu error: '
+                         f'tatsu.compile() lets a {e_.split(".")[-1]} escape', f'{m.module.relpath}:{n.lineno}')
+    # directives used as regexes are validated whatever their syntactic form
+    gm = gs.methods.get('grammar')
+    if gm is None:
+        raise AnalysisError('GrammarSemantics.grammar not found')
+    ebnf = (a.p.root / 'tatsu' / '_tatsu.ebnf').read_text(encoding='utf-8')
+    m_ = re.search(r'^directive\s*:\s*(.*?)(?:\n\s*\n|\Z)', ebnf, re.S | re.M)
+    if not m_:
+        raise AnalysisError('tatsu/_tatsu.ebnf: directive production not found')
+    alts = re.split(r'\n\s*\|\s*name=', m_.group(1))
+    for setting in ('whitespace', 'comments', 'eol_comments'):
+        alt = next((x for x in alts if re.search(rf"'{setting}'", x.split('value=')[0])), None)
+        if alt is None:
+            raise AnalysisError(f'tatsu/_tatsu.ebnf: no directive alternative names {setting!r}')
+        value_forms = set(re.findall(r'\b(regex|string|word|boolean)\b', alt.split('value=', 1)[1] if 'value=' in alt else ''))
+        rep.add({'directive': setting, 'value_forms_in_the_grammar_language': sorted(value_forms)})
+        if value_forms <= {'regex'}:
+            continue  # the `regex` action validates it (first part of this rule)
+        validated = []
+        me = Stub('tatsu.peg.semantics.GrammarSemantics', name='g', rulemap={}, _validate_pattern=Hook(lambda v: validated.append(v)),
+                  _validate_literal=Hook(lambda v: None))
+        astv = Obj(directives=[Obj(name=setting, value='(')], keywords=[])
+        it = ModelInterp(a, {'flatten': Hook(lambda x: list(x) if x else []), 'literal_eval': Hook(lambda x: x), 'g': Obj(Grammar=None)})
+
+        def methods(recv, name, args, kwargs):
+            if isinstance(recv, Obj) and name == 'Grammar':
+                return ('grammar', kwargs.get('directives'))
+            return NotImplemented
+        it.methods = methods
+        try:
+            it.call_fn(gm, [me, astv])
+        except Unsupported as e:
+            raise AnalysisError(f'cannot interpret GrammarSemantics.grammar: {e}') from e
+        ok = '(' in validated
+        rep.add({'directive': setting, 'string_value_validated_as_pattern_before_Grammar_is_built': ok})
+        if not ok:
+            rep.fail(gm.qualname, f'directive-unvalidated:{setting}', f'@@{setting} :: "(" (a string value that is not a valid regex) reaches '
+                     f'the Grammar constructor without pattern validation: the re.error is raised by the configuration code and escapes '
+                     f'from tatsu.compile()', gm.loc)
+    return rep
+
+
+RULES = [r1_one_factory, r2_sentinels, r3_cache_guards, r4_check_before_use, r5_progress, r6_scanner_bounds, r7_operand_coverage,
+         r8_eat_loops_terminate, r9_converters_guarded]
